@@ -85,6 +85,10 @@ func genRelayPlan(r *rand.Rand) *ProxyPlan {
 			q.Body = []int{0, 17, 5000, 100000}[r.IntN(4)]
 			q.ChunkedReq = r.IntN(3) == 0
 		}
+		if q.Method != "GET" && q.Method != "HEAD" && r.IntN(3) == 0 {
+			// preconditions of a write (lost-update protection): they are the client's end-to-end headers
+			q.Hdr = append(q.Hdr, [][2]string{{"If-Match", `"rev-7"`}, {"If-Unmodified-Since", "Sat, 01 Jan 2000 00:00:00 GMT"}, {"If-None-Match", "*"}}[r.IntN(3)])
+		}
 		if r.IntN(4) == 0 {
 			q.ReadChunk = 4096
 		}
